@@ -12,6 +12,7 @@ Foata normal form under that relation and demands, for reduction:odpor,
 import os
 import shutil
 import tempfile
+import threading
 
 from verif import core
 from verif.gen import mcprog2
@@ -85,11 +86,16 @@ class Evaluator:
     def __init__(self, ctx, vm, mc, workdir, selftest=None):
         self.ctx, self.vm, self.mc, self.workdir, self.selftest = ctx, vm, mc, workdir, selftest
         self.t_ref = 300 if ctx.tier == "quick" else 1800
+        self.keys = set()                 # every violation key of the run with the case that produced it (evidence)
+        self.lock = threading.Lock()
 
     def report(self, rule, detail, text, cfg, case, feat, rc):
         w = {"name": case["name"], "spec": case["spec"], "pop": case["pop"], "config": cfg.to_json(), "rule": rule, "detail": detail}
         what = "%s [%s] on program '%s' (%s): %s\n%s" % (rule, cfg.tag(), case["name"], feat, text, case["spec"].rstrip())
-        self.ctx.violation(key_of(rule, detail, cfg, feat, rc), what, w)
+        key = key_of(rule, detail, cfg, feat, rc)
+        with self.lock:
+            self.keys.add("%s  [%s]" % (key, case["name"]))
+        self.ctx.violation(key, what, w)
 
     def evaluate(self, case, only=None):
         ctx = self.ctx
@@ -213,6 +219,7 @@ def run(ctx):
     try:
         ev = Evaluator(ctx, vm, mc, wd, selftest=_selftest_from_env())
         ctx.pmap(ev.evaluate, generate(ctx))
+        ctx.extra["violation_keys"] = sorted(ev.keys)
     finally:
         shutil.rmtree(wd, ignore_errors=True)
 
